@@ -108,6 +108,15 @@ add("C09", "exploration", "DESIGN.md §2 C09",
     "port defaults are compared with the model and a second protocol must show the same entries. Sampled.",
     "well-formed gophermaps only (type character and non-empty description on link lines)")
 
+add("C10", "exploration", "DESIGN.md §2 C10",
+    "Hypothesis RuleBasedStateMachine (mutate / age / list rules, shrunk step lists as replay files) against an explicit "
+    "cache model; expected replies come from a reference server with caching off run on the tree as it was at "
+    "snapshot time (differential cache-on vs cache-off)",
+    "1.6k (quick) / 30k (thorough) machine runs of up to 25/50 steps over a four-directory site, seven protocol forms, "
+    "lifetimes 1000 s and 0; every listing is compared with the model's expectation (hit: snapshot in the reader's "
+    "protocol, age not refreshed; miss: current directory). Histories are sampled, not enumerated.",
+    "clock movement is emulated by ageing cache files with os.utime; directory timestamps are masked")
+
 NOT_APPLICABLE = []
 
 
